@@ -91,6 +91,7 @@ WITNESS = {
     "F04-11": ["if x: import a, b\n"],
 }
 FIXED_WITNESS = {
+    "F04-17": ['"""doc"""\\\n\nprint(os)\n', "from __future__ import annotations \\\n   # comment\nprint(os)\n"],
     "F04-3": ["é = 1\nprint(é)\n"],
     "F04-1": ["if 1/0:\n    print(1)\n", "if 1 + 'a':\n    print(1)\n", "if {[1]: 2}:\n    print(1)\n",
               "for i in range(int(1e308 * 10)):\n    print(i)\n", "if 1 in 2:\n    print(1)\n"],
@@ -169,7 +170,9 @@ def check(run: common.Run):
         failing_inputs.append({"kind": "property-oracle", "what": b["problem"], "case": b})
     hist["early-return cases"] = len(drv.early_return_cases()) * 4
     wsrc = [st for st in sw.EOF_STATEMENTS] + [c.rstrip("\n") for _, c in drv.early_return_cases()] + \
-        [w for w in FIXED_WITNESS["F04-6"]] + ["x = 1\r", "   ", "\t", "a = 1\nprint(a)\n\n\n    "]
+        [w for w in FIXED_WITNESS["F04-6"]] + ["x = 1\r", "   ", "\t", "a = 1\nprint(a)\n\n\n    "] + \
+        ["x = 1 \\\n   ", "import sys\nprint(sys.argv) \\\n\t", '"""doc""" \\\n ', "print(1) \\\r\n   ", "# comment \\",
+         "x = 'a\\\nb'", "print(1) \\\n\n  "]
     n_wrap, wbad = drv.wrapper_check(mods, wsrc)
     for b in wbad[:4]:
         disagreements.append({"kind": "correspondence", "kernel": "K7 format_code_outer (final line break wrapper) on real strings",
